@@ -45,7 +45,7 @@ def selStepL (allowed : List VerS) (best : Option VerInfo) (v : VerInfo) : Optio
   if allowed.contains v.ver then
     match best with
     | none => some v
-    | some b => if b.rank < v.rank then some v else some b
+    | some b => if b.rank ≤ v.rank then some v else some b
   else best
 
 theorem selectVersion_eq_foldl (offered : List VerInfo) (allowed : List VerS) :
@@ -55,12 +55,12 @@ theorem selStepL_none (allowed : List VerS) (x : VerInfo) (hx : allowed.contains
     selStepL allowed none x = some x := by
   unfold selStepL; rw [if_pos hx]
 
-theorem selStepL_lt (allowed : List VerS) (b x : VerInfo) (hx : allowed.contains x.ver = true)
-    (hlt : b.rank < x.rank) : selStepL allowed (some b) x = some x := by
+theorem selStepL_le (allowed : List VerS) (b x : VerInfo) (hx : allowed.contains x.ver = true)
+    (hlt : b.rank ≤ x.rank) : selStepL allowed (some b) x = some x := by
   unfold selStepL; rw [if_pos hx]; simp only [if_pos hlt]
 
-theorem selStepL_nlt (allowed : List VerS) (b x : VerInfo) (hx : allowed.contains x.ver = true)
-    (hlt : ¬ b.rank < x.rank) : selStepL allowed (some b) x = some b := by
+theorem selStepL_nle (allowed : List VerS) (b x : VerInfo) (hx : allowed.contains x.ver = true)
+    (hlt : ¬ b.rank ≤ x.rank) : selStepL allowed (some b) x = some b := by
   unfold selStepL; rw [if_pos hx]; simp only [if_neg hlt]
 
 theorem selStepL_skip (allowed : List VerS) (best : Option VerInfo) (x : VerInfo)
@@ -98,20 +98,20 @@ theorem selFold_some (allowed : List VerS) (l : List VerInfo) (best : Option Ver
           · exact h2 _ rfl
           · exact h3 u hu hau
       | some b =>
-        by_cases hlt : b.rank < x.rank
-        · have e := selStepL_lt allowed b x hx hlt
+        by_cases hlt : b.rank ≤ x.rank
+        · have e := selStepL_le allowed b x hx hlt
           rw [e] at h1 h2
           refine ⟨Or.inr ?_, ?_, ?_⟩
           · rcases h1 with h1 | h1
             · cases h1; exact ⟨List.mem_cons_self, hx⟩
             · exact ⟨List.mem_cons_of_mem _ h1.1, h1.2⟩
           · intro b' hb'; cases hb'
-            exact Nat.le_trans (Nat.le_of_lt hlt) (h2 _ rfl)
+            exact Nat.le_trans hlt (h2 _ rfl)
           · intro u hu hau
             rcases List.mem_cons.mp hu with rfl | hu
             · exact h2 _ rfl
             · exact h3 u hu hau
-        · have e := selStepL_nlt allowed b x hx hlt
+        · have e := selStepL_nle allowed b x hx hlt
           rw [e] at h1 h2
           refine ⟨?_, ?_, ?_⟩
           · rcases h1 with h1 | h1
@@ -120,7 +120,7 @@ theorem selFold_some (allowed : List VerS) (l : List VerInfo) (best : Option Ver
           · intro b' hb'; cases hb'; exact h2 _ rfl
           · intro u hu hau
             rcases List.mem_cons.mp hu with rfl | hu
-            · exact Nat.le_trans (Nat.le_of_not_lt hlt) (h2 _ rfl)
+            · exact Nat.le_trans (Nat.le_of_lt (Nat.lt_of_not_le hlt)) (h2 _ rfl)
             · exact h3 u hu hau
     · have e := selStepL_skip allowed best x hx
       rw [e] at h1 h2
@@ -146,9 +146,9 @@ theorem selFold_none (allowed : List VerS) (l : List VerInfo) (best : Option Ver
         cases best with
         | none => rw [selStepL_none allowed x hx] at h; cases h
         | some b =>
-          by_cases hlt : b.rank < x.rank
-          · rw [selStepL_lt allowed b x hx hlt] at h; cases h
-          · rw [selStepL_nlt allowed b x hx hlt] at h; cases h
+          by_cases hlt : b.rank ≤ x.rank
+          · rw [selStepL_le allowed b x hx hlt] at h; cases h
+          · rw [selStepL_nle allowed b x hx hlt] at h; cases h
       · intro ⟨_, h, _⟩
         rw [h] at hx; cases hx
     · have e := selStepL_skip allowed best x hx
@@ -172,7 +172,7 @@ def frsVersions (w : World) (st : BState) (pkg : RegPkg) : BState × Option (Lis
 
 /-- the deprecation `findRegistrySource` records for a freshly resolved version -/
 def frsDeprecation (vs : List VerInfo) (sel : VerInfo) : Option (Str × Str) :=
-  match vs.find? (fun v => v.rank = sel.rank) with
+  match vs.find? (fun v => v.ver = sel.ver) with
   | some v => v.deprecation
   | none => none
 
